@@ -168,6 +168,7 @@ class Runner:
         cfg = (m['rate'], m['ch'], m['mode'])
         if st == 'setupfail':
             self.setupfail[cfg] = f.get('rc')
+            g['rejected_by_setup'] = g.get('rejected_by_setup', 0) + 1
             return
         if st == 'BADCASE':
             self.badcase.append(line)
@@ -353,6 +354,7 @@ def run(tier):
         'groups': R.groups,
         'configs_passing': len(R.cfg_ok),
         'configs_rejected_by_encoder_setup': len(R.setupfail),
+        'configs_rejected_list': ['%d Hz %d ch %s' % c for c in sorted(R.setupfail)][:40],
         'blocksize_pairs': R.bs_seen,
         'channels_ok': {str(k): v for k, v in sorted(R.ch_ok.items())},
         'stats': R.stat,
@@ -372,7 +374,7 @@ def run(tier):
     ]
     s = R.stat
     chk.guard(not R.badcase, 'executor accepted every generated case line (%s)' % R.badcase[:2])
-    done = lambda name: R.groups.get(name, {}).get('complete') and R.groups[name]['cases'] == R.groups[name]['planned']
+    done = lambda name: R.groups.get(name, {}).get('complete') and R.groups[name]['cases'] + R.groups[name].get('rejected_by_setup', 0) == R.groups[name]['planned']
     # coverage facts are demanded of the groups that ran to completion (a deadline cut is reported as exhaustive:false, not as a broken check)
     if done('probe_N0'):
         chk.guard(set(R.cfg_ok) <= R.cfg_n0 and len(R.cfg_n0) >= 20, 'N=0 passed for every configuration that sets up')
